@@ -56,7 +56,11 @@ func (e *storeEnv) concDo(r concReq) string {
 		return fmt.Sprintf("%d %s", code, body)
 	case "rest_batch":
 		b, _ := json.Marshal(map[string]any{"tuples": []*ketoapi.RelationTuple{r.q, r.q}})
-		code, body := e.doCtx(ctx, e.rr, "POST", "/relation-tuples/batch/check", b)
+		target := "/relation-tuples/batch/check"
+		if r.depth > 0 {
+			target += fmt.Sprintf("?max-depth=%d", r.depth)
+		}
+		code, body := e.doCtx(ctx, e.rr, "POST", target, b)
 		return fmt.Sprintf("%d %s", code, body)
 	case "rest_expand":
 		d := "4"
@@ -130,7 +134,7 @@ func famConc(t *testing.T) {
 	refs := map[int][]string{}
 	durs := map[int][]time.Duration{}
 	for round := 0; round < in.Rounds; round++ {
-		if round%sn != si || round%3 != 2 || in.Only == "expand" {
+		if round%sn != si || round%3 != 2 || in.Only == "expand" || in.Only == "depth" {
 			continue
 		}
 		t.Run(fmt.Sprintf("ref%d", round), func(t *testing.T) {
@@ -149,13 +153,16 @@ func famConc(t *testing.T) {
 			continue
 		}
 		S := in.States[round%len(in.States)]
+		if in.Only == "depth" {
+			S = in.States[0] // the state in which the answers of the queries depend on the depth
+		}
 		if in.Only == "expand" && round%2 == 0 {
 			continue // only the rounds that hammer one subject set
 		}
-		if round%3 == 2 && in.Only != "expand" {
+		if round%3 == 2 && in.Only != "expand" && in.Only != "depth" {
 			t.Run(fmt.Sprintf("c%d", round), func(t *testing.T) { cancelRound(t, &in, round, S, refs[round], durs[round], out) })
 		}
-		if in.Only == "expand" {
+		if in.Only == "expand" || in.Only == "depth" {
 			// falls through to the read-only round below (odd rounds only), no mixed round
 		} else if in.Only == "cancel" {
 			if round%9 == 2 {
@@ -166,7 +173,7 @@ func famConc(t *testing.T) {
 		t.Run(fmt.Sprintf("r%d", round), func(t *testing.T) {
 			// every fourth round runs with max_read_width 1, so that the engine's truncation path is taken by many requests at once
 			ro := regOpts{opl: in.Def.Cfg.opl(), gdepth: 8}
-			wideRound := round%4 == 1 || round%4 == 2
+			wideRound := (round%4 == 1 || round%4 == 2) && in.Only != "depth"
 			if wideRound {
 				ro.width = 1
 			}
@@ -195,7 +202,12 @@ func famConc(t *testing.T) {
 			var reqs []concReq
 			for i := 0; i < in.Par; i++ {
 				rq := concReq{kind: kinds[(i+round)%len(kinds)], q: in.Queries[(i*7+round)%len(in.Queries)].api()}
-				if round%2 == 1 {
+				if in.Only == "depth" {
+					// single checks of ONE tuple whose answer depends on the depth, at every depth 1..8, released together
+					rq.q = in.Queries[round%len(in.Queries)].api()
+					rq.depth = 1 + (i+round)%8
+					rq.kind = []string{"rest_check", "grpc_check", "rest_check", "rest_batch"}[i%4]
+				} else if round%2 == 1 {
 					// odd rounds: many requests for the SAME tuple with different max-depth values
 					rq.q = in.Queries[round%len(in.Queries)].api()
 					rq.depth = 1 + (i*3)%7
@@ -251,7 +263,7 @@ func famConc(t *testing.T) {
 				"visited_sets_concurrent": len(concSets), "visited_sets_alone": len(aloneSets),
 				"visited_same": fmt.Sprint(concSets) == fmt.Sprint(aloneSets)})
 		})
-		if round%2 == 0 {
+		if round%2 == 0 && in.Only != "depth" {
 			t.Run(fmt.Sprintf("m%d", round), func(t *testing.T) { mixedRound(t, &in, round, S, out) })
 		}
 	}
